@@ -31,7 +31,9 @@ class RatFuncSegment:
                             "COMPU-RATIONAL-COEFFS")
 
         numerator_coeffs = coeffs.numerators
-        denominator_coeffs = coeffs.denominators
+        # the denominator is optional: without it, the function is a
+        # polynomial
+        denominator_coeffs = coeffs.denominators if len(coeffs.denominators) > 0 else [1]
 
         lower_limit = scale.lower_limit
         upper_limit = scale.upper_limit
